@@ -9,6 +9,8 @@ REPO = os.environ.get("VERIF_REPO", "/repo")
 SRC = os.path.join(REPO, "src")
 PY = os.path.join(VERIF, ".venv", "bin", "python")
 XH = os.path.join(VERIF, ".venv", "bin", "crosshair")
+# mutation self-tests (VERIF_REPO=<scratch worktree>) must not overwrite the evidence of the real tree: they write under VERIF_OUT
+OUT = os.environ.get("VERIF_OUT") or (VERIF if os.path.realpath(REPO) == "/repo" else os.path.join("/tmp", "verif_out_" + os.path.basename(os.path.normpath(REPO))))
 EXIT_OK, EXIT_VIOLATION, EXIT_HARNESS = 0, 1, 3
 GUARD = "UBERJOB_VERIF"
 
@@ -32,7 +34,7 @@ def ensure_venv():
 
 
 def replay_dir(pid):
-    d = os.path.join(VERIF, "replays", pid)
+    d = os.path.join(OUT, "replays", pid)
     os.makedirs(d, exist_ok=True)
     return d
 
@@ -71,8 +73,8 @@ class Evidence:
             "wall_s": round(time.time() - self.t0, 2),
             "violations": self.violations,
         }
-        os.makedirs(os.path.join(VERIF, "evidence"), exist_ok=True)
-        p = os.path.join(VERIF, "evidence", f"{self.pid}.json")
+        os.makedirs(os.path.join(OUT, "evidence"), exist_ok=True)
+        p = os.path.join(OUT, "evidence", f"{self.pid}.json")
         with open(p + ".tmp", "w") as f:
             json.dump(d, f, indent=1, default=str)
         os.replace(p + ".tmp", p)
